@@ -1,6 +1,6 @@
 (* C03 Match eligibility and limit-price protection. *)
 From ATS Require Import Prelude Dec DecFacts Uuid Semver Types Contract Tactics Spec Inv InvAsk InstProofs AskProofs
-  BidFacts InvBid InvStep ExitProofs Ledger MsgProofs MatchProofs AdmitProofs MatchLive.
+  BidFacts InvBid InvStep ExitProofs Ledger MsgProofs MatchProofs AdmitProofs MatchLive DivFacts ProRata.
 
 (* A match succeeds ONLY IF: sender is an executor, no funds; both ids canonical and both orders on the book; equal
    quote denominations; the ask plain or approved (never pending); ask price <= bid price; the execution price equals
@@ -65,3 +65,20 @@ Theorem C03_if : forall e st c a b ap bp xp sender ask_id bid_id price size gros
   is_ok (execute FX e st sender [] (ExecuteMatch ask_id bid_id price size)) = true.
 Proof. exact match_if. Qed.
 Print Assumptions C03_if.
+
+(* for EVERY accepted match -- no invariant, no side condition, inside K_inexact too -- the gross amount the match is
+   settled at is less than one unit away from execution price * size: the class K_inexact (a non-whole product judged
+   whole after 96-bit rounding) can misjudge wholeness, it cannot move the settlement by a unit *)
+Theorem C03_total_within_a_unit : forall e st sender funds ask_id bid_id price size st' r,
+  execute_match FX e st sender funds ask_id bid_id price size = Ok (st', r) ->
+  exists xp gross_d gross,
+    dec_parse price = Some xp /\ mul_size xp size = Ok gross_d /\ dec_to_u128 gross_d = Some gross /\
+    gross * 10 ^ d_scale xp < d_mant xp * size + 10 ^ d_scale xp /\
+    d_mant xp * size < gross * 10 ^ d_scale xp + 10 ^ d_scale xp.
+Proof.
+  intros e st sender funds ask_id bid_id price size st' r H.
+  apply execute_match_inv in H as (c & a & b & ap & bp & xp & rb & gross_d & gross & af & bfee & fill & b' & rb' & imp &
+    _ & _ & _ & _ & _ & _ & _ & _ & Hxp & _ & _ & _ & _ & Hm & Hfr & Hgr & _).
+  exists xp, gross_d, gross. repeat split; try assumption; eapply whole_total_within_a_unit; eauto.
+Qed.
+Print Assumptions C03_total_within_a_unit.
